@@ -4,6 +4,7 @@
 //! Code: mahf::components::selection::functional::{objective_bounds,proportional_weights,reverse_rank,sample_population_weighted}, mahf::components::selection::selection (driver)
 //! Out: populations larger than 3; the distribution of stochastic selections (only support, count and weight direction); objective magnitudes above 2^100 for the weight-based operators (weight sums overflow to inf there)
 //! Out: inputs that are unusable but not documented as such: FullyRandom on an empty population, Tournament of size 0, IWO with max_selected < min_selected
+//! Reclimit: mahf::state::(registry::)?StateRegistry::<.*>::find(_mut)?::<.*>=2
 //! Assume: SymRng draw budget = rejection-free draws + 2 per harness; membership is checked by reference (ptr::eq with an element of the source slice)
 use mahf::components::selection::functional as f;
 use mahf::components::selection::{
